@@ -92,6 +92,8 @@ fn run<const N: usize>(s: &mut Summary, v: &V) {
     let mut objs: [Obj<N>; 2] = [Obj::None, Obj::None];
     objs[0] = if v["start"] == json!("consumer") {
         Obj::C(ArrayConsumer::new(std::array::from_fn(|_| L::new())))
+    } else if v["start"] == json!("consumer_empty") {
+        Obj::C(ArrayConsumer::empty())
     } else {
         Obj::B(ArrayBuilder::new())
     };
@@ -220,6 +222,8 @@ fn run_zst<const N: usize>(s: &mut Summary, v: &V) {
     let mut objs: [ObjZ<N>; 2] = [ObjZ::None, ObjZ::None];
     objs[0] = if v["start"] == json!("consumer") {
         ObjZ::C(ArrayConsumer::new(std::array::from_fn(|_| Z::new())))
+    } else if v["start"] == json!("consumer_empty") {
+        ObjZ::C(ArrayConsumer::empty())
     } else {
         ObjZ::B(ArrayBuilder::new())
     };
